@@ -404,6 +404,8 @@ class Verdict:
                 log("  %s" % desc[:2000])
             rc = 1
         cov = dict(self.cov)
+        if not cov.get("samples"):
+            cov["samples"] = [dict(note="the run ended before sampling (fatal observation)", signatures=[x[0] for x in self.violations][:5])]
         cov["drift"] = len(self.drift)
         cov["known_findings_hit"] = [k[0] for k in self.known_hits]
         cov.update(self.notes)
